@@ -400,7 +400,7 @@ func (Engine) Shrink(sci interface{}) []interface{} {
 
 func (Engine) Describe() harness.EngineInfo {
 	return harness.EngineInfo{
-		Rule: "scenario = 1-5 tasks on ONE context, each a script of RunCode / ModuleInit (Code, CodeSrc, registered Go module with close callback) / ResolveAndCompile / RunFile / py.Import issued from Go / py.Call of a pre-defined Python function that imports, exec()s or eval()s source or a precompiled code object or calls __import__ / Close / Done-wait, bodies with mark_start, hold(k), nested import|exec|raise, mark_end; scheduler policy (random p, PCT d<=4, quantum, serial) and map order drawn per run; preemption before every statement of package stdlib, every simsync operation, every VM instruction. distinct = distinct sequences of (task, harness event) i.e. distinct interleavings at event granularity; non-trivial = at least one Close call overlaps (invoke..return) an execution request or a request starts after a Close returned",
+		Rule: "scenario = 1-5 tasks on ONE context, each a script of RunCode / ModuleInit (Code, CodeSrc, registered Go module with close callback) / ResolveAndCompile / RunFile / py.Import issued from Go / py.Call of a pre-defined Python function that imports, exec()s or eval()s source or a precompiled code object or calls __import__ / Close / Done-wait, bodies with mark_start, hold(k), nested import|exec|raise, mark_end; in 1 of 3 scenarios the modules' close callbacks stay in flight for a few steps or re-enter their own closing context (RunCode / py.Import / py.Call of a function that exec()s), which must be refused with an ordinary error; scheduler policy (random p, PCT d<=4, quantum, serial) and map order drawn per run; preemption before every statement of package stdlib, every simsync operation, every VM instruction. distinct = distinct sequences of (task, harness event) i.e. distinct interleavings at event granularity; non-trivial = at least one Close call overlaps (invoke..return) an execution request or a request starts after a Close returned",
 		Real: []string{"stdlib.context (pushBusy/popBusy/Close/Done/RunCode/ModuleInit/ResolveAndCompile)", "py.ModuleStore", "py.Import machinery", "parser/symtable/compile", "vm"},
 		Stubbed: []string{"sync.{Once,WaitGroup,Mutex,RWMutex,Cond} -> simsync (same semantics, blocking visible to the scheduler)",
 			"sync/atomic -> simatomic", "close/recv/send on channels -> simrt.Chan*", "os.Stat/ReadFile/Open/Getwd in the import resolver -> simfs (in-memory tree)", "Go map iteration order -> seeded"},
